@@ -76,7 +76,7 @@ def _deep_fail(depth, tag, t):
 
 class TagWorker(Worker):
     def __init__(self, *, tag='A', log_dir=None, fail_init_index=None, fail_init_flag=None, nstream=0, cleanup_logs=0, fuzz=None,
-                 base_sleep=0.0, **kwargs):
+                 base_sleep=0.0, fail_init_kind=None, **kwargs):
         super().__init__(**kwargs)
         self.tag = tag
         self.log_dir = log_dir
@@ -84,6 +84,9 @@ class TagWorker(Worker):
         if fail_init_index is not None and self.worker_index == fail_init_index:
             # a transient failure when a flag file is named: it fails only while that file exists
             if fail_init_flag is None or os.path.exists(fail_init_flag):
+                if fail_init_kind == 'sysexit':
+                    # a worker that gives up during set-up the way scripts do
+                    raise SystemExit(f'cannot initialise {tag}[{self.worker_index}]')
                 raise InitBoom(tag, self.worker_index)  # SITE-MARK-7f3a init
         if nstream:
             self.num_stream_threads = nstream
